@@ -202,6 +202,8 @@ class FakeSocket(object):
         data = bytes(data)
         self.w.op(self.conn, 'sendall', len(data))
         self._check_open('sendall')
+        if self.w.fail_sendall:
+            raise self.w.fail_sendall.pop(0)
         if self.w.split_send and len(data) > 1:
             half = len(data) // 2
             self.w.wrote(self.conn, data[:half], True)
@@ -671,6 +673,7 @@ class World(object):
         self.max_waits = max_waits
         self.wait_log = []      # (t_enter, timeout, result, buffered-before)
         self.split_send = False
+        self.fail_sendall = []   # exceptions raised by the next sendall calls (one each)
         self.sched_point = lambda tag: None
         self.make_lock = lambda reentrant: SeqRLock() if reentrant else SeqLock()
         self.environ = {}
